@@ -201,6 +201,38 @@ def handle (args : List String) (impl : String) : String × String :=
       match textIn x with
       | none => ("bad-op", "bad-op")
       | some src => (outParse (fromStrRadix bits radix src), strPred bits radix src impl)
+    | "sweep" =>
+      -- every Unicode scalar value in [lo, hi] as the second character of "1<c>" ("B<c>" above radix 36: the digit 1 of
+      -- that alphabet) — exhaustive over `char` for the radix. The model is evaluated on the characters `classify` does
+      -- not reject; for the others its outcome is `Props/C09.sweep_default_outcome`.
+      let radix := parseHex b
+      match x.splitOn "-" with
+      | [los, his] =>
+        if radix < 2 ∨ radix > 64 ∨ bits ≠ 64 then ("bad-op", "bad-op") else
+        let lo := parseHex los; let hi := parseHex his
+        let lead : Char := if radix ≤ 36 then '1' else 'B'
+        let implMap : List (Nat × String) := if impl = "-" then [] else
+          (impl.splitOn ";").filterMap fun t => match t.splitOn "=" with
+            | [k, v] => some (parseHex k, v.replace "_" " ")
+            | _ => none
+        let cps := (List.range (hi + 1 - lo)).map (· + lo) |>.filter Nat.isValidChar
+        let toks := cps.filterMap fun cp =>
+          let c := Char.ofNat cp
+          if classify radix c = .bad then none else
+          let r := outParse (fromStrRadix bits radix [lead, c])
+          if r = "err InvalidChar " ++ toHex cp then none else some (toHex cp ++ "=" ++ r.replace " " "_")
+        let m := if toks.isEmpty then "-" else ";".intercalate toks
+        -- spec: the documented alphabet decides every character of the range (a character outside it whose outcome is
+        -- the default `InvalidChar` satisfies `strPred` by its definition: not re-evaluated)
+        let bad := cps.filter fun cp =>
+          let c := Char.ofNat cp
+          match implMap.find? (·.1 == cp) with
+          | some (_, v) => strPred bits radix [lead, c] v != "pred:true"
+          | none => docClass radix c != .bad && strPred bits radix [lead, c] ("err InvalidChar " ++ toHex cp) != "pred:true"
+        (m, match bad with
+            | [] => "pred:true"
+            | cp :: _ => "pred:false character " ++ toHex cp ++ " is not classified as documented")
+      | _ => ("bad-op", "bad-op")
     | "fmt" =>
       let v := parseHex x
       match (textIn b).bind parseSpec with
